@@ -111,6 +111,18 @@ Definition wf_case (pu : puniverse) (imps sx : list item) (pls : list (list item
   NoDup (map fst imps) /\ NoDup (map fst sx) /\ Forall (fun exps => NoDup (map fst exps)) pls /\
   Forall (fun x => u_export_name_ok pu (fst x) = true) sx.
 
+(** a case as the property quantifies it: a blank graph with the packages registered *)
+Definition plug_case (pu : puniverse) (s : gstate) (plugs : list pkgid) (socket : pkgid)
+           (imps sx : list item) (pls : list (list item)) : Prop :=
+  blank s /\ resolved pu s plugs socket imps sx pls /\ wf_case pu imps sx pls.
+
+(** the socket imports no two names on one semver track *)
+Definition socket_tracks_distinct (pu : puniverse) (imps : list item) : Prop :=
+  tracks_distinct (pu_name_text pu) (map fst imps).
+(** no plug exports two names on one semver track *)
+Definition plug_tracks_distinct (pu : puniverse) (pls : list (list item)) : Prop :=
+  Forall (fun exps => tracks_distinct (pu_name_text pu) (map fst exps)) pls.
+
 (** executable form of [resolved] (used by the driver and by the refutation witnesses) *)
 Definition case_data (pu : puniverse) (s : gstate) (plugs : list pkgid) (socket : pkgid)
   : option (list item * list item * list (list item)) :=
